@@ -1245,7 +1245,8 @@ resolve_obj_address		(vbi_decoder *		vbi,
 struct enhance_state {
 	const cache_page *	vtp;
 	enum ttx_object_type	type;
-	vbi_char		ac, mac, *acp;
+	vbi_char		ac, mac;
+	vbi_char *		acp;	/* pg->text */
 	int			inv_row, inv_column;
 	int			active_row, active_column;
 	int			row_color;
@@ -1258,10 +1259,15 @@ static void
 enhance_flush(struct enhance_state *es, int column)
 {
 	int row = es->inv_row + es->active_row;
+	vbi_char *acp;
 	int i;
 
 	if (row >= ROWS)
 		return;
+
+	/* Objects can be invoked at and address rows below the page,
+	   so the row pointer is formed only after the check above. */
+	acp = es->acp + row * EXT_COLUMNS;
 
 	if (es->type == OBJECT_TYPE_PASSIVE && !es->mac.unicode) {
 		es->active_column = column;
@@ -1283,7 +1289,7 @@ enhance_flush(struct enhance_state *es, int column)
 		if (i > 39)
 			break;
 
-		c = es->acp[i];
+		c = acp[i];
 
 		if (es->mac.underline) {
 			int u = es->ac.underline;
@@ -1332,7 +1338,7 @@ enhance_flush(struct enhance_state *es, int column)
 				c.size = VBI_NORMAL_SIZE;
 		}
 
-		es->acp[i] = c;
+		acp[i] = c;
 
 		if (es->type == OBJECT_TYPE_PASSIVE)
 			break;
@@ -1461,7 +1467,7 @@ enhance(vbi_decoder *vbi,
 	es.active_column = 0;
 	es.active_row = 0;
 
-	es.acp = &pg->text[(inv_row + 0) * EXT_COLUMNS];
+	es.acp = pg->text;
 
 	offset_column = 0;
 	offset_row = 0;
@@ -1585,8 +1591,6 @@ enhance(vbi_decoder *vbi,
 
 				es.active_row = row;
 				es.active_column = column;
-
-				es.acp = &pg->text[(es.inv_row + es.active_row) * EXT_COLUMNS];
 
 				break;
 
@@ -2120,7 +2124,9 @@ enhance(vbi_decoder *vbi,
 
 				row = es.inv_row + es.active_row;
 				count = (p->data >> 4) + 1;
-				acp = &pg->text[row * EXT_COLUMNS];
+				acp = pg->text;
+				if (row < ROWS)
+					acp += row * EXT_COLUMNS;
 
 				proportional = (p->data >> 0) & 1;
 				bold = (p->data >> 1) & 1;
